@@ -753,6 +753,8 @@ def _update_array(array, update, *slices):
                     if not bool(dim_eq(a_, b_)):
                         raise ValueError(f"could not broadcast input array from shape {tuple(us)} into shape {tuple(vs)}")
 
+    ax_of = {id(p_): a_ for a_, p_ in enumerate(plans)}
+
     def fn(*idx):
         inside = []          # conditions under which position idx is overwritten
         eqs = []             # equalities linking idx to the source position (possibly through a pending summation variable)
@@ -763,7 +765,10 @@ def _update_array(array, update, *slices):
                 _, st, ln, step = p
                 if step == 1:
                     off = i - st.term
-                    inside += [off >= 0, off < ln.term]
+                    full_axis = z3.is_int_value(st.term) and st.term.as_long() == 0 and z3.eq(z3.simplify(ln.term), z3.simplify(iterm(array.shape[len(src) + sum(1 for q_ in plans[:len(src)] if q_[0] == "int")])) ) if False else \
+                        (z3.is_int_value(z3.simplify(st.term)) and z3.simplify(st.term).as_long() == 0 and z3.eq(z3.simplify(ln.term), z3.simplify(iterm(array.shape[ax_of[id(p)]]))))
+                    if not full_axis:       # a whole axis constrains nothing for in-range positions
+                        inside += [off >= 0, off < ln.term]
                     src.append(off)
                 else:
                     q = fresh_idx("q")
